@@ -478,6 +478,7 @@ int cif_parse(FILE *stream, struct cif_parse_opts_s *options, cif_tp **cifp) {
             scanner.char_source = &ustream;
             scanner.read_func = ustream_read_chars;
             scanner.at_eof = CIF_FALSE;
+            scanner.cr_pending = CIF_FALSE;
             scanner.cif_version = cif_version;
             scanner.line_unfolding = MIN(options->line_folding_modifier, 1);
             scanner.prefix_removing = MIN(options->text_prefixing_modifier, 1);
